@@ -241,7 +241,8 @@ class ProgGen:
                 d = r.randrange(-128, 128)
                 o = r.randrange(8)
                 return K('%s(IX%+d)' % (ALU[o], d), 0xDD, 0x86 + 8 * o, d & 255, w='' if o == 7 else 'A')
-            return K('LD A,(%d)' % r.randrange(65536), 0x3A, *self._w(r.randrange(65536)), w='A')
+            v = r.randrange(65536)
+            return K('LD A,(%d)' % v, 0x3A, lo(v), hi(v), w='A')
         return K('NOP', 0)
 
     def _w(self, v):
@@ -656,7 +657,8 @@ class Session:
         self.clean = clean
         self.ops = []
         self.has = False          # sim dictionary populated
-        self.pos = None           # index of the boundary where the simulator's PC stands
+        self.zero = prog['org'] == 0          # code at address 0, no interrupt routines: "start ... 0 if this is the first run"
+        self.pos = 0 if self.zero else None   # index of the boundary where the simulator's PC stands
         self.depth = 0
         self.spset = False
         self.texts = []
@@ -664,6 +666,7 @@ class Session:
         self.nb = len(prog['bounds']) - 1
         self.kinds = prog['kinds']
         self.paged = False
+        self.sp_safe = False      # clean sessions: SP known to point into uncontended memory
         self.ival = 63            # the I register the simulator state holds (IM 2 vector tables exist for 63 and 159)
 
     def add(self, op, text, cls):
@@ -726,15 +729,23 @@ class Session:
     # ---- ops
     def op_sim_run(self):
         r = self.r
-        cont = self.has and self.pos is not None and self.pos < self.nb and r.random() < .55
+        first0 = self.zero and not self.has and self.pos == 0
+        cont = ((self.has and self.pos is not None and self.pos < self.nb) or first0) and r.random() < (.8 if first0 else .55)
         fresh = not self.has
         clear = None
+        open_ = 0
         if self.has and r.random() < .2:
             clear = 1
             fresh = True
             cont = False
+            if self.zero and r.random() < .4:
+                # clear=1 without start: "start ... default: stop from the previous invocation" vs "reset [registers] to their
+                # default values" - the documents leave the start address open (the tools start at 0)
+                cont, open_, self.pos = True, 1, 0
         elif r.random() < .08:
             clear = 0
+        if first0 and cont:
+            self.classes.add('sim:first0')
         sp = self.span(self.pos if cont else None, allow_halt=True)
         if sp is None:
             return False
@@ -756,7 +767,7 @@ class Session:
                 ps.append({'n': 'iff', 'v': lit(r.randrange(2))})
         else:
             x = r.random()
-            if x < .12:
+            if x < .12 and not self.zero:
                 execint = 1
             elif x < .2:
                 execint = 0
@@ -791,7 +802,10 @@ class Session:
             ps = [p for p in ps if p['n'] != 'i'] + [{'n': 'i', 'v': lit(r.choice([63, 159]))}]
             ival = ps[-1]['v']['v']
         self.ival = ival
-        self.emit_sim(ps)
+        if self.clean and not any(p['n'] == 'sp' for p in ps) and (fresh or not self.sp_safe):
+            ps.append({'n': 'sp', 'v': lit(self.sp_value())})       # cmio=1: keep the stack out of contended memory
+        self.sp_safe = True if any(p['n'] == 'sp' for p in ps) else self.sp_safe and not fresh
+        self.emit_sim(ps, open_)
         self.has = True
         self.pos = j
         ks = self.kinds[i:j]
@@ -826,12 +840,15 @@ class Session:
             if clear or fresh:
                 self.pos = None
             self.ival = self.new_ival(ps, fresh or clear)
+            self.sp_safe = True if any(p['n'] == 'sp' for p in ps) else self.sp_safe and not (fresh or clear)
+        elif fresh:
+            self.sp_safe = False
         self.emit_sim(ps)
         self.has = True
         self.classes.add('sim:set')
         return True
 
-    def emit_sim(self, ps):
+    def emit_sim(self, ps, open_=0):
         r = self.r
         r.shuffle(ps)
         style = r.random()
@@ -856,7 +873,7 @@ class Session:
                     text = '#SIM' + body
                 else:
                     text = '#SIM(%s)' % body
-        self.add({'t': 'sim', 'ps': ps}, text, 'sim')
+        self.add({'t': 'sim', 'ps': ps, 'd': open_}, text, 'sim')
 
     def op_fields(self, full=False):
         r = self.r
@@ -933,8 +950,11 @@ class Session:
         if sp is None:
             return False
         i, j = sp
+        if 'ay' in self.kinds[i:j]:
+            # open finding e01:probe:tstates-leaks-ay (see PROBES): executed #TSTATES writes through to sim[ay][N]
+            return False
         start, stop = self.p['bounds'][i], self.p['bounds'][j]
-        execint = r.choice([0, 0, 0, 1]) if self.ival in (63, 159) else 0
+        execint = r.choice([0, 0, 0, 1]) if self.ival in (63, 159) and not self.zero else 0
         flags = 4 + r.choice([0, 0, 1])
         txt = r.random() < .25
         sv = lit(start)
@@ -1006,7 +1026,7 @@ class Session:
             a = i
         j = i + 1
         start, stop = self.p['bounds'][a], self.p['bounds'][j]
-        execint = r.choice([0, 0, 0, 1, 2]) if self.ival in (63, 159) else 0
+        execint = r.choice([0, 0, 1, 2]) if self.ival in (63, 159) else 0
         offset = r.choice([-1, -1, 0, 1000, 69000, 69880, r.randrange(200000)])
         name = 'a%d.wav' % len(self.ops)
         op = {'t': 'audio', 'start': start, 'stop': stop, 'execint': execint, 'offset': offset, 'fname': name}
@@ -1066,11 +1086,14 @@ def gen_session(rng, prog, kind, is128, pages, dw, cnt, clean, nops):
             s.op_pops()
         elif x < .92:
             s.op_bank()
-        elif x < .97:
+        elif x < .97 or (kind == 'audio' and r.random() < .5):
             if s.op_audio() and r.random() < .8:
                 s.op_fields(full=r.random() < .4)
         else:
             s.op_fields()
+    if kind == 'audio' and not any(op['t'] == 'audio' for op in s.ops):
+        if s.op_audio():
+            s.op_fields(full=True)
     while s.depth:
         s.op_pops()
         s.op_peek()
@@ -1099,12 +1122,12 @@ def side_source():
     return _SIDE
 
 
-def skool_source(case, text, place):
+def skool_source(case, text, place, side='side.skool'):
     lines = ['@start']
     if case['is128']:
         for b in case['fill']:
             if b != case['p7']:
-                lines.append('@bank=%d,side.skool' % b)
+                lines.append('@bank=%d,%s' % (b, side))
         lines.append('@bank=%d' % case['p7'])
     lines += background_lines()
     for a, bs in VECTORS:
@@ -1160,7 +1183,7 @@ def run_tools(case, text, place, d, do_asm, do_html):
     os.makedirs(d)
     path = os.path.join(d, 'p.skool')
     with open(path, 'w') as f:
-        f.write(skool_source(case, text, place))
+        f.write(skool_source(case, text, place, os.path.join(d, 'side.skool')))
     if case['is128']:
         with open(os.path.join(d, 'side.skool'), 'w') as f:
             f.write(side_source())
@@ -1202,13 +1225,15 @@ KINDS48 = ['straight', 'hl', 'ix', 'bcde', 'stack', 'block', 'io', 'djnz', 'djnz
 
 
 def make_case(rng, key, kind):
-    """kind: 'plain' | 'int' | 'audio' | 'clean' | '128'"""
+    """kind: 'plain' | 'int' | 'audio' | 'clean' | '128' | 'zero'"""
     r = rng
     is128 = kind == '128'
     clean = kind == 'clean'
     org = r.choice([32768, 32768, 33000, 0x8400, 0xB000, 0x6000, 0x7F80]) if not clean else r.choice([32768, 33000, 0xB000])
     if is128:
         org = r.choice([32768, 33000, 0x6000])
+    if kind == 'zero':
+        org = 0
     dw = 0x9000
     pages, p7, fill = [], 0, []
     if is128:
@@ -1226,7 +1251,7 @@ def make_case(rng, key, kind):
         for _ in range(r.choice([1, 1, 2])):
             kinds.insert(r.randrange(len(kinds) + 1), 'halt')
     if kind == 'audio':
-        for _ in range(r.choice([1, 2])):
+        for _ in range(r.choice([1, 2, 3])):
             kinds.insert(r.randrange(len(kinds) + 1), 'audio')
     if is128:
         for _ in range(r.choice([1, 2, 3])):
@@ -1241,7 +1266,7 @@ def make_case(rng, key, kind):
     if ' ' in text:
         raise MachineryError('space in session text: ' + text)
     place = ('ins', r.randrange(len(prog['ins']))) if r.random() < .6 else ('mid', r.randrange(1, len(prog['ins'])))
-    handlers = handler_ins(cnt)
+    handlers = handler_ins(cnt) if kind != 'zero' else []
     ov = {}
     for a, bs in VECTORS:
         for i, b in enumerate(bs):
@@ -1311,3 +1336,76 @@ def slim(case):
     c['ops'] = [dict({'t': op['t'], 'd': op['d'], 'asm': op['asm'], 'html': op['html']}, **{f: op[f] for f in OP_FIELDS[op['t']]})
                 for op in case['ops']]
     return c
+
+
+# --------------------------------------------------------------------------------------------------- probes
+# Hand-written sessions for input classes the random generator deliberately stays away from, because the unchanged
+# tree fails on them (reported to the lead; each probe has its own violation key e01:probe:<name>).  They run when
+# their key is registered in known_findings.json or when VERIF_E01_PROBES=1.
+def _ops(*lst):
+    ops, texts = [], []
+    for op, text in lst:
+        op = dict(op, d=0, asm=[], html=[])
+        ops.append(op)
+        texts.append(text)
+    return ops, texts
+
+
+def _sim(**kw):
+    return {'t': 'sim', 'ps': [{'n': n, 'v': lit(v)} for n, v in kw.items()]}
+
+
+def _ts(start, stop, flags):
+    return {'t': 'ts', 'start': lit(start), 'stop': lit(stop), 'flags': flags, 'execint': 0, 'txt': 0}
+
+
+def _fields(*names):
+    return {'t': 'fields', 'fs': [{'n': n if isinstance(n, str) else 'ay', 'i': 0 if isinstance(n, str) else n} for n in names]}
+
+
+PROBES = [
+    # "$tstates for the actual timing value when bit 2 of flags is set": parse_tstates substitutes the simulator's
+    # clock (registers[T]) instead of the difference it returns when no text is given
+    ('tstates-text-is-absolute-clock', 0, 0, [],
+     [(32768, 'LD A,1', [62, 1]), (32770, 'INC A', [60]), (32771, 'RET', [201])],
+     [(_sim(tstates=1000), '#SIM(tstates=1000)'), (_ts(32768, 32771, 6), '#TSTATES(32768,32771,6)($tstates)')]),
+    # "#TSTATES ... operates on a copy" / "#SIM copies the simulator state as it was left by the most recent invocation
+    # of either the #AUDIO or the #SIM macro": the PagingTracer of an executed #TSTATES shares the ay list of the sim
+    # dictionary, so AY writes of the timed code show up in sim[ay][N]
+    ('tstates-leaks-ay', 1, 0, [0],
+     [(32768, 'LD BC,65533', [1, 253, 255]), (32771, 'LD A,4', [62, 4]), (32773, 'OUT (C),A', [237, 121]), (32775, 'LD B,191', [6, 191]),
+      (32777, 'OUT (C),A', [237, 121]), (32779, 'RET', [201])],
+     [(_sim(clear=1), '#SIM(clear=1)'), (_ts(32768, 32779, 4), '#TSTATES(32768,32779,4)'),
+      (_fields(4, 'fffd'), '#FORMAT0({sim[ay][4]},{sim[fffd]})')]),
+    # "#POPS ... replaces [the snapshot] with the one that was previously saved": on a 128K snapshot the saved 64K view is
+    # copied into whatever is paged in at the time of #POPS, so code run by #SIM that pages another bank in leaves that
+    # bank overwritten with the saved bank's bytes (and the paging changed)
+    ('pops-128k-after-paging', 1, 0, [0, 1],
+     [(32768, 'LD BC,32765', [1, 253, 127]), (32771, 'LD A,1', [62, 1]), (32773, 'OUT (C),A', [237, 121]), (32775, 'LD (49408),A', [50, 0, 193]),
+      (32778, 'RET', [201])],
+     [({'t': 'pokes', 'a': 49408, 'b': 77, 'n': 1, 'step': 1}, '#POKES49408,77'), ({'t': 'pushs'}, '#PUSHS'),
+      (_sim(stop=32778, start=32768), '#SIM(32778,32768)'), ({'t': 'pops'}, '#POPS'), ({'t': 'peek', 'a': lit(49408)}, '#PEEK49408'),
+      ({'t': 'bank', 'page': 1}, '#BANK1'), ({'t': 'peek', 'a': lit(49408)}, '#PEEK49408')]),
+]
+
+
+def probe_cases(wd, names):
+    cases = []
+    for name, is128, p7, fill, ins, lst in PROBES:
+        if name not in names:
+            continue
+        ops, texts = _ops(*lst)
+        text = '~S~' + ''.join('%s~%d~' % (t, k) for k, t in enumerate(texts)) + '~E~'
+        prog = {'org': ins[0][0], 'ins': [tuple(i) for i in ins], 'bounds': [], 'kinds': [], 'end': ins[-1][0] + len(ins[-1][2])}
+        ov = {}
+        for a, bs in VECTORS:
+            for i, b in enumerate(bs):
+                ov[a + i] = b
+        for a, t, bs in ins:
+            for i, b in enumerate(bs):
+                ov[a + i] = b
+        case = {'key': 'probe:' + name, 'kind': 'probe', 'is128': is128, 'p7': p7, 'fill': fill, 'prog': prog, 'handlers': [],
+                'ov': [[a, b] for a, b in sorted(ov.items())], 'ins': [[a, len(bs)] for a, t, bs in ins], 'ops': ops, 'asm': 1,
+                'html': 1, 'exc': '', 'text': text, 'place': ['ins', 0], 'classes': []}
+        cases.append(observe(case, wd, 'probe'))
+    return cases
